@@ -27,18 +27,19 @@ def digraphs(n):
         yield [list(p) for k, p in enumerate(pairs) if mask >> k & 1]
 
 
-_ORDER = {"rng": None, "nx": 0.0, "hist": 0.0}
+_ORDER = {"rng": None, "nx": 0.0, "hist": 0.0, "lazy": 0.0}
 _HIST = {"phase": None, "slots": [], "pos": 0}
 
 
-def scramble_insertions(rng, nx=0.15, hist=0.25):
+def scramble_insertions(rng, nx=0.15, hist=0.25, lazy=0.5):
     """From now on mk_graph / mk_bipartite / mk_digraph build the same abstract graph by another history:
     the edges are inserted in a random order (and, for simple graphs, random orientation); with
     probability nx the graph is handed over as a networkx object (nodes and edges inserted in a random
     order); with probability hist (decided in build()) the generator is first run on an intermediate
-    state of the very same object, which is then updated to the requested graph and used again.  The
+    state of the very same object, which is then updated to the requested graph and used again; a complete
+    bipartite graph is handed over as the lazy CompleteBipartiteGraph class with probability lazy.  The
     abstract graph handed to the specification is the same in every case."""
-    _ORDER.update(rng=rng, nx=nx, hist=hist)
+    _ORDER.update(rng=rng, nx=nx, hist=hist, lazy=lazy)
 
 
 def _order(edges, flip=False):
@@ -114,6 +115,11 @@ def _mk(kind, n, r, edges):
         for u, v in _order([e for e in target if key(e) not in have], flip=(kind == "simple")):
             G.add_edge(u, v)
         return G
+    if rng is not None and _HIST["phase"] is None and kind == "bipartite" and len(target) == n * r \
+            and rng.random() < _ORDER["lazy"]:
+        # the complete bipartite graph as the class that stores no edge
+        from cnfgen.graphs import CompleteBipartiteGraph
+        return CompleteBipartiteGraph(n, r)
     if rng is not None and _HIST["phase"] is None and rng.random() < _ORDER["nx"]:
         return _as_networkx(kind, n, r, target)
     G = _new(kind, n, r)
